@@ -149,3 +149,11 @@ def model_full(b, cases):
     for c, a, sc in zip(cases, asts, scripts):
         c.meta["model_ast"] = a
         c.meta["model_bash"] = sc
+
+
+def model_batch(b, cases):
+    """whole model pipeline from the source files to the batch script"""
+    reqs = [parse_request(c) for c in cases]
+    scripts = model_lines(b, ["FULLBATCH" + r[5:] for r in reqs])
+    for c, sc in zip(cases, scripts):
+        c.meta["model_batch"] = sc
